@@ -23,7 +23,7 @@ CHECKS = {
          "All histories to depth 5/6 over lazy insert / insert_all / remove / exec (logging, nesting, queueing inserts, creating and deleting entities immediately and deferred) / lazy builders mixed with direct operations and maintain; execution log, closure results and storage contents are compared with a FIFO queue model after every maintain; every history ends with two extra maintains that must find nothing left over.",
          "DESIGN.md §4 C09"),
  "C17": ("mc-hist", "explicit-state BFS over real World histories (alphabet E1), peak-bound invariant",
-         "Same exhaustive state graph as C01; at every creation (and for a tail probe that drains the free list) the returned index must be below the running peak of not-yet-dead entities.",
+         "Same exhaustive state graph as C01; at every creation (and for a tail probe that drains the free list) the returned index must be below the running peak of not-yet-dead entities. Second part (mc-conc): under every interleaving of small concurrent deferred-creation programs a never-used index is taken only once the free list is exhausted.",
          "DESIGN.md §4 C17, §5"),
  "C04": ("mc-store", "explicit-state BFS over single-storage histories on the real Storage API, map reference model",
          "For each of the 18 storage kinds (6 base kinds, both change-tracking wrappers over each) and each index layout (dense, word/layer-boundary straddling, far apart) the complete reachable state graph (membership x hidden dense tables x slice lengths) under insert/overwrite/get_mut/remove/entry API/get_mut_or_default/drain (full and partial)/clear/mutable joins is explored to its fixed point; every return value, lookup, mask, count, join and slice view is compared with a plain map after every transition.",
@@ -49,6 +49,9 @@ CHECKS = {
  "C16": ("mc-join", "exhaustive enumeration of (entity, amount) sequences with a non-commutative accumulator",
          "Every sequence of up to 4 (quick) / 5 (thorough) pairs over 3 entities x 2 amounts, built by collect, by add, and by collect+extend at every split point; shared, mutable, lending and consuming (full and partial) joins alone and paired with a storage of every content; per entity the amounts must be concatenated in arrival order, each yielded exactly once, and the amount ledger must balance.",
          "DESIGN.md §4 C16"),
+ "C10": ("mc-conc", "stateless exhaustive schedule exploration (preemption-bounded DFS, bound iterated) of real threads as coroutines",
+         "Thousands of small programs (2 threads x 1-2 operations, 3 threads x 1 operation over create / create_iter / build_entity built and dropped / delete / is_alive / join / lazy exec, insert, builder) on initial worlds with 0-2 free indices, forced to collide on the same free list, counter and entities; every sequentially consistent interleaving of the instrumented shared-memory steps with <=2 (quick) / <=3 (thorough) preemptions, unbounded for the short programs; per execution: handles pairwise distinct, alive for their creator, deletion requests for live handles succeed, after maintain alive = initial + created - requested, every lazy action ran once in per-thread order, a second maintain changes nothing.",
+         "DESIGN.md §4 C10"),
 }
 
 NOTE = "Bounded exhaustive exploration of the real implementation (no separate model to drift); trusted: hibitset, shred, shrev, crossbeam-queue, rayon, serde as dependencies; bounds are stated in the evidence file."
@@ -83,6 +86,7 @@ def main():
         "engines": [
             {"name": "mc-hist", "path": "/verif/mc/src/hist.rs", "serves_properties": ["C01","C02","C03","C05","C09","C17"], "kind_free_text": "explicit-state BFS; transitions replay the real World API"},
             {"name": "mc-join", "path": "/verif/mc/src/join.rs", "serves_properties": ["C06","C07","C13","C16"], "kind_free_text": "stateless exhaustive enumeration of join shapes and of every split tree of the real parallel producer"},
+            {"name": "mc-conc", "path": "/verif/mc/src/conc.rs", "serves_properties": ["C10","C17"], "kind_free_text": "CHESS-style preemption-bounded schedule enumeration; shuttle coroutines, custom scheduler, yield points compiled into specs under cfg(specs_verif)"},
             {"name": "mc-store", "path": "/verif/mc/src/store.rs", "serves_properties": ["C04","C08","C12","C19"], "kind_free_text": "explicit-state BFS over storage histories; ledger tokens; destructor-panic injection"},
         ],
         "checks": checks,
